@@ -1345,6 +1345,38 @@ fn reversed_imports(p: &Program) -> Program {
     q
 }
 
+fn rotate_imports_block(b: &mut Block, any: &mut bool) {
+    if b.imports.len() >= 3 {
+        b.imports.rotate_left(1);
+        *any = true;
+    }
+    for s in b.stmts.iter_mut() {
+        if let Stmt::Block(_, inner) = s {
+            rotate_imports_block(inner, any);
+        }
+    }
+}
+
+/// the same program with every import list of three or more statements rotated
+/// by one (`None` when there is no such list)
+fn rotated_imports(p: &Program) -> Option<Program> {
+    let mut q = p.clone();
+    let mut any = false;
+    for m in q.mods.iter_mut() {
+        for it in m.items.iter_mut() {
+            match it {
+                ItemD::Imports(trees) if trees.len() >= 3 => {
+                    trees.rotate_left(1);
+                    any = true;
+                }
+                ItemD::Fn { body: Some(b), .. } => rotate_imports_block(b, &mut any),
+                _ => {}
+            }
+        }
+    }
+    if any { Some(q) } else { None }
+}
+
 /// does some scope import a path whose first segment is the alias (last
 /// segment) of a sibling import of the same scope?
 fn sibling_alias_prefix(p: &Program) -> bool {
@@ -2082,13 +2114,22 @@ fn check_case(rep: &mut Report, drv: &mut Driver, p: &Program, ident: J, tier: &
     let q = reversed_imports(p);
     let second = check_variant(rep, drv, &q, "imports-reversed", &ident, max_err, None);
     let mut differs = vec![];
-    if matches!(first.base, Out::Ok(_)) != matches!(second.base, Out::Ok(_)) {
-        differs.push(format!("tree: {} vs {}", first.base.show(), second.base.show()));
+    let mut others = vec![second];
+    if let Some(r) = rotated_imports(p) {
+        others.push(check_variant(rep, drv, &r, "imports-rotated", &ident, max_err, None));
+        rep.hist("import_order_variants", "3");
+    } else {
+        rep.hist("import_order_variants", "2");
     }
-    for (id, a) in &first.seen {
-        if let Some(b) = second.seen.get(id) {
-            if a != b {
-                differs.push(format!("reference {id}: {} vs {}", a.show(), b.show()));
+    for other in &others {
+        if matches!(first.base, Out::Ok(_)) != matches!(other.base, Out::Ok(_)) {
+            differs.push(format!("tree: {} vs {}", first.base.show(), other.base.show()));
+        }
+        for (id, a) in &first.seen {
+            if let Some(b) = other.seen.get(id) {
+                if a != b {
+                    differs.push(format!("reference {id}: {} vs {}", a.show(), b.show()));
+                }
             }
         }
     }
